@@ -44,6 +44,10 @@ def task_table(ctx, col):
     enum_search(ctx, col, table_specs(), lambda s: execute(ctx, s))
 
 
+def task_truncgrid(ctx, col, shard):
+    enum_search(ctx, col, (s for i, s in enumerate(hist.trunc_grid_specs()) if i % NSHARDS == shard), lambda s: execute(ctx, s))
+
+
 def task_random(ctx, col, shard, n, max_ops):
     strat = hist.st_array_history(max_ops=max_ops, extra=('meta', 'meta', 'overwrite'))
     hyp_search(ctx, col, strat, lambda s: execute(ctx, s), shard_seed(ctx, shard), n)
@@ -52,5 +56,6 @@ def task_random(ctx, col, shard, n, max_ops):
 def tasks(ctx):
     t = [(task_table, {})]
     for sh in range(NSHARDS):
+        t.append((task_truncgrid, dict(shard=sh)))
         t.append((task_random, dict(shard=sh, n=ctx.pick(900, 2500), max_ops=ctx.pick(8, 25))))
     return t
